@@ -44,5 +44,7 @@ def main(pid, tier):
         ck.phase("runtime")
     except ImportError:
         pass
+    ck.assumptions += ["the depth limit of a channel stack (512 values, MAX_CHAN_STACK = MaxStack of Emu.tla) is part of "
+                       "the reference semantics: the push that exceeds it is refused"]
     return ck.finish(rule="one emulator history per (sampled) transition of the bounded mark model + runtime mark "
                           "programs; non-trivial = at least 2 events; distinct by event list")
